@@ -17,6 +17,7 @@ def run(ctx):
     dynatt.rule_attack_assumption_templates(ctx)
     dynalloc.rule_id_indexed_vectors(ctx)
     dyn.rule_cached_witness_consistent(ctx)
+    dyn.rule_encoder_assumptions_reach_sat_calls(ctx)
     ctx.assume("rustc's MIR and resolved callees; Vec/Cell/Rc/RefCell std semantics")
     return (
         "F5 on the event-log scans (update variants are barriers), F2 on logging/replay/cursor, allocator-discipline analysis of the SAT variables "
